@@ -1061,6 +1061,122 @@ fn gen_all(rng: &mut Rng, thorough: bool, div: u64, w: &mut CaseWriter) {
     for kind in ["bai", "bamcsi", "vcftbi"] {
         gen_mutations(rng, thorough && kind == "bai", div, w, "iq", kind, &format!("iq-{kind}"));
     }
+    // BGZF member fields: ISIZE / CRC32 / BSIZE / XLEN of EVERY block (the raw file is not
+    // re-sealed, so the edit reaches the reader), values around every size the reader compares
+    // with (htslib 65280, noodles writer 65495, BGZF_MAX_ISIZE 65536)
+    if div == 1 {
+        let file = base("bgzf");
+        for &c in block_starts(&file).iter() {
+            let c = c as usize;
+            if c + 18 > file.len() {
+                continue;
+            }
+            let len = u16::from_le_bytes([file[c + 16], file[c + 17]]) as usize + 1;
+            if c + len > file.len() || len < 26 {
+                continue;
+            }
+            let isize_off = (c + len - 4) as u64;
+            let real = u32::from_le_bytes(file[c + len - 4..c + len].try_into().unwrap()) as u64;
+            for val in [0u64, 1, 2, real.saturating_sub(1), real + 1, 65_279, 65_280, 65_281, 65_494, 65_495, 65_496, 65_500, 65_535, 65_536, 65_537,
+                        0x0001_0000 | real, 0x7fff_ffff, 0x8000_0000, 0xffff_ffff] {
+                if val != real {
+                    push_mut(w, "mut", "bgzf", "u32", isize_off, val);
+                }
+            }
+            for val in [0u64, 1, 0xffff_ffff] {
+                push_mut(w, "mut", "bgzf", "u32", isize_off - 4, val);
+            }
+            let bsize = (len - 1) as u64;
+            for val in [0u64, 1, 24, 25, 26, 27, bsize - 1, bsize + 1, bsize + 2, 0x7fff, 0xffff] {
+                if val != bsize {
+                    push_mut(w, "mut", "bgzf", "u16", c as u64 + 16, val);
+                }
+            }
+            for val in [0u64, 1, 5, 7, 8, 0xffff] {
+                push_mut(w, "mut", "bgzf", "u16", c as u64 + 10, val);
+            }
+        }
+    }
+    // striped codec streams built by hand (rANS Nx16 and the arithmetic coder share the layout:
+    // flags = STRIPE, size, chunk count, compressed sizes, chunks): every chunk is a CAT stream
+    // that carries ITS OWN size; the sizes are the balanced shares, then every redistribution
+    // of 1..2 bytes between two chunks (total kept), one byte more / less in one chunk, a
+    // NO_SIZE chunk, a chunk count of 0 / beyond the sizes present -- transpose() trusts each
+    // chunk to be exactly its share
+    {
+        let mut emit = |w: &mut CaseWriter, total: usize, sizes: &[usize], nosize: Option<usize>, count_byte: Option<u8>| {
+            let mut chunks: Vec<Vec<u8>> = Vec::new();
+            for (i, &sz) in sizes.iter().enumerate() {
+                let mut c = Vec::new();
+                if nosize == Some(i) {
+                    c.push(0x30);
+                } else {
+                    c.push(0x20);
+                    c.push(sz as u8);
+                }
+                c.extend((0..sz).map(|j| b'a' + ((i * 7 + j) % 26) as u8));
+                chunks.push(c);
+            }
+            let mut t = vec![0x08u8, total as u8, count_byte.unwrap_or(sizes.len() as u8)];
+            for c in &chunks {
+                t.push(c.len() as u8);
+            }
+            for c in &chunks {
+                t.extend(c);
+            }
+            for name in ["nx16stripe", "aacstripe"] {
+                w.push("craw", vec![name.to_string(), total.to_string(), hex(&t)]);
+            }
+        };
+        let shares = |total: usize, n: usize| -> Vec<usize> { (0..n).map(|i| total / n + usize::from(total % n > i)).collect() };
+        if div == 1 {
+            for total in 0..=9usize {
+                for n in 1..=5usize {
+                    let bal = shares(total, n);
+                    emit(w, total, &bal, None, None);
+                    emit(w, total, &bal, Some(0), None);
+                    emit(w, total, &bal, None, Some(0));
+                    emit(w, total, &bal, None, Some(n as u8 + 1));
+                    for i in 0..n {
+                        let mut v = bal.clone();
+                        v[i] += 1;
+                        emit(w, total, &v, None, None);
+                        if bal[i] > 0 {
+                            let mut v = bal.clone();
+                            v[i] -= 1;
+                            emit(w, total, &v, None, None);
+                        }
+                        for j in 0..n {
+                            for k in 1..=2usize {
+                                if i != j && bal[j] >= k {
+                                    let mut v = bal.clone();
+                                    v[i] += k;
+                                    v[j] -= k;
+                                    emit(w, total, &v, None, None);
+                                    emit(w, total, &v, Some(j), None);
+                                }
+                            }
+                        }
+                    }
+                }
+            }
+        }
+        for _ in 0..q(if thorough { 4000 } else { 300 }) {
+            let n = rng.range(1, 6) as usize;
+            let total = rng.below(60) as usize;
+            let mut v = shares(total, n);
+            for _ in 0..rng.below(3) {
+                let (i, j) = (rng.below(n as u64) as usize, rng.below(n as u64) as usize);
+                let k = rng.range(1, 4) as usize;
+                if i != j && v[j] >= k {
+                    v[i] += k;
+                    v[j] -= k;
+                }
+            }
+            let ns = if rng.chance(1, 5) { Some(rng.below(n as u64) as usize) } else { None };
+            emit(w, total, &v, ns, None);
+        }
+    }
     // BGZF seeks
     {
         let file = base("bgzf");
@@ -1076,6 +1192,71 @@ fn gen_all(rng: &mut Rng, thorough: bool, div: u64, w: &mut CaseWriter) {
         for _ in 0..q(if thorough { 3000 } else { 200 }) {
             let c = if rng.chance(1, 2) { *rng.pick(&starts) } else { rng.below(n + 30) };
             w.push("seek", vec![c.to_string(), rng.below(65536).to_string(), rng.below(4).to_string()]);
+        }
+    }
+    // CRAM codecs, flag sweep: a valid encoding under EVERY flag byte the encoder accepts (128
+    // combinations of ORDER / N32|EXT / STRIPE / NO_SIZE / CAT / RLE / PACK) x nine plain-input
+    // classes, plus fqzcomp / name tokenizer parameter variants.  The decoder models of C08
+    // branch on each of these bits; the six + four hand-picked flag bytes above never reach e.g.
+    // RLE+PACK+ORDER-1 inside STRIPE or the NO_SIZE paths by single-byte mutation.
+    {
+        let mut names: Vec<String> = Vec::new();
+        for bits in (0..=255u32).filter(|b| b & 0x02 == 0) {
+            for k in 0..files::N_PLAINS {
+                names.push(format!("nx16x{bits:02x}p{k}"));
+                names.push(format!("aacx{bits:02x}p{k}"));
+            }
+        }
+        for k in 0..files::N_FQZ_VARIANTS {
+            names.push(format!("fqzv{k}"));
+        }
+        for k in 0..files::N_TOK_VARIANTS {
+            names.push(format!("tokv{k}"));
+        }
+        for name in &names {
+            let p = base(&format!("codec-{name}"));
+            let n = p.len() as u64;
+            if n == 0 {
+                continue; // the encoder refuses this combination
+            }
+            if div == 1 {
+                push_mut(w, "cmut", name, "id", 0, 0);
+                // every truncation of a short stream, a spread of a long one
+                let step = if thorough { (n / 64).max(1) } else { (n / 6).max(1) };
+                let mut l = 0;
+                while l < n {
+                    push_mut(w, "cmut", name, "trunc", l, 0);
+                    l += step;
+                }
+                // the header bytes (flags, sizes, table heads) exhaustively in the thorough tier
+                if thorough {
+                    for pos in 0..n.min(6) {
+                        for val in [0u64, 1, 0x7f, 0x80, 0xff, p[pos as usize] as u64 ^ 0x08, p[pos as usize] as u64 ^ 0x40, p[pos as usize] as u64 ^ 0x01] {
+                            if val != p[pos as usize] as u64 {
+                                push_mut(w, "cmut", name, "sub", pos, val);
+                            }
+                        }
+                    }
+                }
+            }
+            for _ in 0..(if thorough { 24 } else if div == 1 { 5 } else { 1 }) {
+                let pos = if rng.chance(1, 3) { rng.below(n.min(8)) } else { rng.below(n) };
+                let cur = p[pos as usize];
+                let val = match rng.below(4) {
+                    0 => cur.wrapping_add(1),
+                    1 => cur ^ (1 << rng.below(8)),
+                    2 => *rng.pick(SUB_VALUES),
+                    _ => rng.next() as u8,
+                };
+                if val != cur {
+                    push_mut(w, "cmut", name, "sub", pos, val as u64);
+                }
+            }
+            if rng.chance(1, 4) {
+                let o = rng.below(n);
+                push_mut(w, "cmut", name, "u32", o, *rng.pick(U32_VALUES));
+                push_mut(w, "cmut", name, "del", o, 1);
+            }
         }
     }
     // CRAM codecs: mutations of valid encodings, arbitrary bytes
@@ -1208,6 +1389,10 @@ fn run_codec(name: String, us: usize, bytes: Vec<u8>) -> Obs {
         "nx16"
     } else if name.starts_with("aac") {
         "aac"
+    } else if name.starts_with("fqz") {
+        "fqz"
+    } else if name.starts_with("tok") {
+        "tok"
     } else {
         name.as_str()
     };
